@@ -57,6 +57,19 @@ def setup():
     warnings.simplefilter('ignore')
 
 
+def purge_stale(hours=8):
+    """remove scratch directories left behind by killed runs (older than `hours`)"""
+    import time
+    try:
+        now = time.time()
+        for n in os.listdir(SCRATCH_ROOT):
+            p = os.path.join(SCRATCH_ROOT, n)
+            if now - os.path.getmtime(p) > hours * 3600:
+                shutil.rmtree(p, ignore_errors=True)
+    except OSError:
+        pass
+
+
 def scratch_dir(tag='x'):
     os.makedirs(SCRATCH_ROOT, exist_ok=True)
     return tempfile.mkdtemp(prefix='%s-%d-' % (tag, os.getpid()), dir=SCRATCH_ROOT)
